@@ -92,19 +92,28 @@ Proof. exact SiteProofs.disambiguation_repaired. Qed.
 Print Assumptions disambiguation_repaired.
 
 (* --- formal parameters of printed definitions --- *)
-Theorem formal_arg_fresh_refuted : exists user d,
-  In d user /\
-  let df := default_definition pinned d in
+Theorem formal_arg_fresh_refuted : exists user d df tbl',
+  In d user /\ default_definition pinned user d = Some (df, tbl') /\
   resolve_clashes pinned user [(d, df)] = Some [df] /\ ~ params_fresh user df.
 Proof. exact SiteProofs.formal_arg_fresh_refuted. Qed.
 Print Assumptions formal_arg_fresh_refuted.
 
-Theorem formal_arg_fresh_refuted_builder : exists user d,
-  In d user /\
-  let df := fst (builder_definition pinned d 0) in
+Theorem formal_arg_fresh_refuted_builder : exists user d df u' tbl',
+  In d user /\ builder_definition pinned user d 0 = Some (df, u', tbl') /\
   resolve_clashes pinned user [(d, df)] = Some [df] /\ ~ params_fresh user df.
 Proof. exact SiteProofs.formal_arg_fresh_refuted_builder. Qed.
 Print Assumptions formal_arg_fresh_refuted_builder.
+
+(* repaired creation of formal parameters: always succeeds, and every variable it adds to the symbols of the logic has
+   only homonyms that are the same variable (nullary, same sort): no user symbol becomes ambiguous *)
+Theorem formal_arg_creation_repaired : forall sorts tbl base num,
+  exists ps n' tbl', create_params repaired tbl base num sorts = Some (ps, n', tbl') /\ grows tbl tbl'.
+Proof.
+  intros sorts tbl base num. destruct (create_params repaired tbl base num sorts) as [[[ps n'] tbl']|] eqn:E.
+  - exists ps, n', tbl'. split; [reflexivity | exact (creation_no_overload sorts tbl base num ps n' tbl' E)].
+  - exfalso. exact (creation_total sorts tbl base num E).
+Qed.
+Print Assumptions formal_arg_creation_repaired.
 
 Theorem formal_arg_fresh_repaired : forall user fs,
   exists l, resolve_clashes repaired user fs = Some l /\ Forall (params_fresh user) l.
@@ -155,14 +164,15 @@ Print Assumptions echo_repaired_examples.
 Theorem raw_name_sites_refuted :
   ~ reads_as std_cfg (core_names_text pinned ["n 1"; "let"]) (SList [sym_tok "n 1"; sym_tok "let"])
   /\ ~ reads_as std_cfg (sortToString pinned (Sort "S T" [])) (sort_sexp (Sort "S T" []))
-  /\ read_symbol std_cfg (df_name (default_definition pinned (usym "unused fn" [U] U))) <> Some "unused fn".
+  /\ (exists df tbl', default_definition pinned [] (usym "unused fn" [U] U) = Some (df, tbl') /\
+                       read_symbol std_cfg (df_name df) <> Some "unused fn").
 Proof. split; [exact core_names_refuted | split; [exact sort_name_refuted | exact default_definition_name_refuted]]. Qed.
 Print Assumptions raw_name_sites_refuted.
 
 Theorem raw_name_sites_repaired :
   (forall n, legal_symbol n -> read_symbol std_cfg (sortToString repaired (Sort n [])) = Some n)
-  /\ (forall d, legal_symbol (sd_name d) -> sd_interp d = false ->
-        read_symbol std_cfg (df_name (default_definition repaired d)) = Some (sd_name d))
+  /\ (forall tbl d df tbl', legal_symbol (sd_name d) -> sd_interp d = false ->
+        default_definition repaired tbl d = Some (df, tbl') -> read_symbol std_cfg (df_name df) = Some (sd_name d))
   /\ reads_as std_cfg (core_names_text repaired ["n 1"; "let"; "n3"]) (SList [sym_tok "n 1"; sym_tok "let"; sym_tok "n3"]).
 Proof. split; [exact sort_name_repaired | split; [exact default_definition_name_repaired | exact core_names_repaired_example]]. Qed.
 Print Assumptions raw_name_sites_repaired.
